@@ -10,3 +10,4 @@ CONSTANTS
  MaxCalls = 7
  Budget = 60
  WithRecv = FALSE
+ Fam = "size"
